@@ -830,7 +830,7 @@ Proof.
 Qed.
 
 (** ... and exactly one in an iteration that is not cut short: from the loop head with a live,
-    unfinished bar and free locks, eight ticker steps end at the stop check with one more tick *)
+    unfinished bar and free locks, seven ticker steps end at the stop check with one more tick *)
 Theorem iteration_ticks_once : forall os s,
   pc s = TUpgrade -> strong s <> 0 -> fin s = false -> barl s = Free -> stopl s = Free ->
   let s' := run_ticker os 7 s in
